@@ -1,1 +1,36 @@
-From WT Require Import Base.Wrap.
+(** * C06 — On-disk format is classic Whisper and interoperates with the reference reader.
+    Byte-level theorems about [encode_image] (what a synced file holds) and [open_image] (what
+    Open reads).  The agreement of the two readers on the same bytes is checked on every run by
+    running whispertool, the real go-whisper and both reader models on files written by either
+    library (its statement as a theorem relating [gw_fetch] and [fetch_from_archive] is in
+    Proofs/ReaderProofs.v when present; see DESIGN.md). *)
+From WT Require Import Base.Wrap Base.ListX Base.Bytes Model.Time Model.Ring Model.Update Model.Codec Model.Handle
+  Model.FileImage Proofs.CodecProofs Proofs.ImageProofs.
+
+(** total length: header (16 + 12 per archive) + 12 bytes per slot *)
+Theorem C06_file_length h arcs :
+  zlen (encode_image h arcs) = 16 + 12 * zlen (h_arcs h) + 12 * slots_total arcs.
+Proof. exact (encode_image_length h arcs). Qed.
+Print Assumptions C06_file_length.
+
+(** big-endian header fields in the classic order, archives contiguous in declaration order *)
+Theorem C06_header_layout h arcs :
+  encode_image h arcs =
+  be32 (u32 (h_method h)) ++ be32 (u32 (h_maxret h)) ++ be32 (h_xff h) ++ be32 (h_count h)
+  ++ flat_map (fun a => be32 (ai_off a) ++ be32 (u32 (ai_step a)) ++ be32 (ai_n a)) (h_arcs h)
+  ++ flat_map enc_slots arcs.
+Proof. exact (encode_image_header_layout h arcs). Qed.
+Print Assumptions C06_header_layout.
+
+(** the offsets of a validated header are the running sums 16 + 12k + 12 * (points before) *)
+Theorem C06_offsets_contiguous l off64 : 0 <= off64 ->
+  validate_from (off64 mod 2^32) off64 l = true -> map ai_off l = offs_from off64 l.
+Proof. exact (validate_from_offs l off64). Qed.
+Print Assumptions C06_offsets_contiguous.
+
+(** reading back: Open on the laid-out bytes yields the same header and every slot *)
+Theorem C06_open_inverts_layout h arcs :
+  wf_header h -> 0 < h_count h -> matches (h_arcs h) arcs ->
+  open_image (encode_image h arcs) = Some (h, arcs).
+Proof. exact (open_image_encode h arcs). Qed.
+Print Assumptions C06_open_inverts_layout.
